@@ -30,6 +30,12 @@ RULES = {
     'P3_state_iter_mut': [
         (lambda body: __import__('vx.rules', fromlist=['x']).iter_mut_to_index(body)),
     ],
+    # P3: `for i in self.state.ready_indexes() { B }` -> `for i in 0..LEN { if self.state[i].is_ready() { B } }`
+    # (ready_indexes = iter().cloned().enumerate().filter(|(_, s)| s.is_ready()).map(|(i, _)| i), poll_state/{array,vec}.rs)
+    'P3_ready_indexes_N': [(lambda body: filter_loop(body, 'ready_indexes', 'is_ready', 'N'))],
+    'P3_pending_indexes_N': [(lambda body: filter_loop(body, 'pending_indexes', 'is_pending', 'N'))],
+    'P3_ready_indexes_len': [(lambda body: filter_loop(body, 'ready_indexes', 'is_ready', 'self.state.len()'))],
+    'P3_pending_indexes_len': [(lambda body: filter_loop(body, 'pending_indexes', 'is_pending', 'self.state.len()'))],
     # P5 mutex guard elimination ----------------------------------------------
     'P5_lock_let': [
         (r'let\s+mut\s+readiness\s*=\s*self\.wakers\.readiness\(\);', 'self.wakers.lock();'),
@@ -82,3 +88,13 @@ def iter_mut_to_index(body):
     cb = _lex.match_close(_lex.mask(body), ob)
     inner = _re.sub(r'\bstate\.', 'self.state[k].', body[ob:cb + 1])
     return body[:m.start()] + 'for k in 0..N ' + inner + body[cb + 1:], 1
+
+
+def filter_loop(body, method, pred, bound):
+    m = _re.search(r'for\s+i\s+in\s+self\.state\.%s\(\)\s*\{' % method, body)
+    if not m:
+        return body, 0
+    ob = m.end() - 1
+    cb = _lex.match_close(_lex.mask(body), ob)
+    inner = body[ob + 1:cb]
+    return body[:m.start()] + 'for i in 0..%s { if self.state[i].%s() {%s} }' % (bound, pred, inner) + body[cb + 1:], 1
